@@ -59,7 +59,9 @@ def surface(nx=2, ny=2, symmetry=True, right=False, name="wing", **over):
     s = copy.deepcopy(BASE)
     s["name"] = name
     s["symmetry"] = symmetry
-    s["mesh"] = rect_mesh(nx, ny, symmetry, right=right, jitter=over.pop("jitter", 0.0))
+    # from_half: a non-symmetric surface whose mesh is one half wing (any ny), e.g. an explicitly modelled wing half
+    from_half = over.pop("from_half", False)
+    s["mesh"] = rect_mesh(nx, ny, True if from_half else symmetry, right=right, jitter=over.pop("jitter", 0.0))
     s["num_x"], s["num_y"] = nx, ny
     if over.get("fem_model_type") == "wingbox":
         s.update(wingbox_keys())
